@@ -96,7 +96,11 @@ func (r *report) processViolations() {
 		}
 		reproduced := false
 		for i, v := range g.vs {
-			rf := &ReplayFile{Property: r.cfg.Prop, Harness: v.Harness, Site: v.Site, Kind: v.Kind, Msg: v.Msg, Region: v.Region, Tier: r.cfg.Tier,
+			tier := "quick" // the bounds the harness ran with: only the deep pass of the thorough tier uses the larger ones
+			if strings.HasSuffix(v.Harness, "@deep") {
+				tier = "thorough"
+			}
+			rf := &ReplayFile{Property: r.cfg.Prop, Harness: strings.TrimSuffix(v.Harness, "@deep"), Site: v.Site, Kind: v.Kind, Msg: v.Msg, Region: v.Region, Tier: tier,
 				RepoHead: r.head, Values: v.Values, Trace: v.Trace, Model: v.Model, SMT: v.SMT}
 			name := sanitize(fmt.Sprintf("%s__%s__%s_%d", v.Harness, v.Site, v.Region, i)) + ".json"
 			path := filepath.Join(r.replayDir(), name)
@@ -151,7 +155,14 @@ func (r *report) selftest(ld *loaded) {
 	}
 	dir := r.nb.scratch
 	for _, h := range r.sh.hs {
-		hh := &Harness{Name: h.Name, Prop: h.Prop, Fn: h.Fn, St: newStats()}
+		if h.Deep && h.St != nil && h.St.NoDeeper {
+			continue
+		}
+		hh := &Harness{Name: h.Name, Prop: h.Prop, Fn: h.Fn, Deep: h.Deep, St: newStats()}
+		selfTier := "quick"
+		if h.Deep {
+			selfTier = "thorough"
+		}
 		for i := 0; i < n; i++ {
 			reason := ex.runPath(hh, nil)
 			for try := 0; try < 60 && (reason == "assume false" || reason == "assume infeasible" || reason == "skipped"); try++ {
@@ -165,7 +176,7 @@ func (r *report) selftest(ld *loaded) {
 				r.selfSkipWhy[reason]++
 				continue
 			}
-			rf := &ReplayFile{Property: r.cfg.Prop, Harness: h.Name, Kind: "concrete", Tier: r.cfg.Tier, Values: ex.replayValues(ex.concreteModel())}
+			rf := &ReplayFile{Property: r.cfg.Prop, Harness: strings.TrimSuffix(h.Name, "@deep"), Kind: "concrete", Tier: selfTier, Values: ex.replayValues(ex.concreteModel())}
 			path := filepath.Join(dir, fmt.Sprintf("self_%s_%d.json", h.Name, i))
 			b, _ := json.Marshal(rf)
 			os.WriteFile(path, b, 0o644)
@@ -226,6 +237,7 @@ func (r *report) finish() int {
 	silent := 0
 	var auditFail []string
 	vacuous := []string{}
+	var capped []string
 	var samples []any
 	paths := 0
 	for _, h := range sh.hs {
@@ -237,6 +249,7 @@ func (r *report) finish() int {
 		distinct += st.SymPaths
 		if st.Capped || st.Pending > 0 {
 			complete = false
+			capped = append(capped, fmt.Sprintf("%s (%d paths explored)", h.Name, st.Paths))
 		}
 		for k, n := range st.Funcs {
 			funcs[k] += n
@@ -267,7 +280,10 @@ func (r *report) finish() int {
 			_ = n
 			_ = s
 		}
-		if st.Completed == 0 && !skipped {
+		if st.NoDeeper {
+			continue // second pass not needed: the harness has no larger bound
+		}
+		if st.Completed == 0 && !skipped && !st.Capped {
 			vacuous = append(vacuous, h.Name+": no path ran to completion")
 		}
 		hi := map[string]any{"harness": h.Name, "paths": st.Paths, "completed_paths": st.Completed, "aborted": st.Aborted, "site_reach": st.SiteReach,
@@ -328,7 +344,7 @@ func (r *report) finish() int {
 		fmt.Printf("NOTE: %d stores into operand memory always rewrite the value already there (no snapshot difference; a data race between concurrent callers)\n", silent)
 	}
 	if !complete {
-		fmt.Println("INCOMPLETE: a path/time cap was reached; the stated bound was not exhausted (see evidence)")
+		fmt.Println("INCOMPLETE: the path / time budget ended before the stated bound was exhausted for: " + strings.Join(capped, ", ") + " (the claim for these is what was explored, see evidence)")
 	}
 	for k, n := range unsupported {
 		fmt.Printf("INCOMPLETE: %d paths ended at an unmodelled callee %s\n", n, k)
